@@ -24,5 +24,5 @@ def run(tier, replay=None):
   ]
   ok, info = proof.proof_stage(rep, PID, extra_trusted=['props/coregen.py printers', 'props/corecheck.py, Core/Check.v'])
   variants = [('plain', lambda prog, r: G.p_program(prog))]
-  K.run_core(rep, PID, tier, PROFILE, variants, 200, 6000, 'c02', replay=replay, ok=ok, info=info, accept=uses_c02)
+  K.run_core(rep, PID, tier, PROFILE, variants, 200, 3000, 'c02', replay=replay, ok=ok, info=info, accept=uses_c02)
   return rep.finish()
